@@ -14,7 +14,7 @@ import os
 import re
 from fractions import Fraction
 
-from harness import core
+from harness import core, facts
 
 STATS = ['q', 'qtilde', 'q0', 't', 'ttilde']
 FUNC = {'q': 'qmu', 'qtilde': 'qmu_tilde', 'q0': 'q0', 't': 'tmu', 'ttilde': 'tmu_tilde'}
@@ -526,12 +526,22 @@ def load_corpus():
 def run(ctx):
     rng = ctx.rng
     tie = None
-    ok, txt = core.prove(ctx)
-    if not ok:
-        tie = 'proof obligations of props/C06.v no longer check: ' + txt[-1200:]
+    try:
+        ctx.coverage['translated_from_source'] = extract(ctx)
+    except facts.TieBroken as e:
+        tie = 'translation of pyhf/infer/test_statistics.py to Gallina failed (harness/props/c06.py:extract): %s' % e
+    if tie is None:
+        ok, txt = core.prove(ctx)
+        if not ok:
+            why = ('the functions translated from the source no longer coincide with the hand model (coq/TieTestStat.v, C06_source_is_model_*): '
+                   if ('Tie' in txt or 'source_is_model' in txt or 'Gen.v' in txt) else 'proof obligations of props/C06.v no longer check: ')
+            tie = why + txt[-1200:]
     rc, mout, _ = core.coq_make(['TestStatRun.vo'])
     if rc != 0:
         tie = tie or ('coq/TestStatRun.v does not build: ' + mout[-800:])
+    model_ok = rc == 0          # the hand model is run for the correspondence even when a tie theorem no longer checks
+    ctx.trusted += ['harness/props/c06.py:extract + harness/props/tie_translate.py (python ast -> Gallina for _tmu_like, _qmu_like, qmu, qmu_tilde, tmu, '
+                    'tmu_tilde, q0; fail closed): C06_source_is_model_* prove the translated definitions equal to the hand model']
     ctx.trusted += ['harness/props/c06.py: replacement of pyhf.infer.test_statistics.fit / fixed_poi_fit by scripted functions',
                     'SLSQP (scipy) as the optimiser behind the real fits of part (ii); closed-form values certified by Interval',
                     'C06_exact_fits_need_no_clip / C06_q_closed_form_counting assume fits that return true minimisers (explicit premises / '
@@ -542,7 +552,7 @@ def run(ctx):
     # ---- (i) scripted fits ----
     scripts = corpus_scripts + gen_scripts(rng, ctx.n(360, None))
     models = None
-    if tie is None:
+    if model_ok:
         try:
             res = core.coq_eval(ctx, 'scripts', HEADER, [script_expr(sc) for sc in scripts], shard=max(60, len(scripts) // core.NCPU + 1))
             models = [decode_script(r) for r in res]
@@ -617,7 +627,7 @@ def run(ctx):
         else:
             items.append((i, counting_goal(i, c, o['value'])))
     rejected = set()
-    if tie is None:
+    if model_ok:
         try:
             rejected = certify(ctx, 'counting', items)
             stats['counting_goals'] = len(items)
